@@ -89,9 +89,10 @@ type signRow struct {
 }
 
 type forkRow struct {
-	Fork string `json:"fork"`
-	Idx  int    `json:"idx"`
-	Kind int    `json:"kind"`
+	Fork   string `json:"fork"`
+	Idx    int    `json:"idx"`
+	Kind   int    `json:"kind"`
+	Latest int    `json:"latest"`
 }
 
 type hashRow struct {
@@ -311,7 +312,8 @@ func (t *table) makeSigner(sg sgDesc, r *rand.Rand) (types.Signer, string) {
 	if sg.Chain >= 0 {
 		chain = chainOf(sg.Chain)
 	}
-	if r.Intn(2) == 0 {
+	switch r.Intn(4) {
+	case 0, 1:
 		var levels []int
 		for _, f := range t.Forks {
 			if f.Kind == sg.Kind {
@@ -321,6 +323,18 @@ func (t *table) makeSigner(sg sgDesc, r *rand.Rand) (types.Signer, string) {
 		if len(levels) > 0 {
 			lv := levels[r.Intn(len(levels))]
 			return types.MakeSigner(configAt(lv, chain), big.NewInt(10), 10), "MakeSigner@" + forkNames[lv-1]
+		}
+	case 2:
+		// types.LatestSigner on a configuration whose last scheduled fork maps to the kind
+		var levels []int
+		for _, f := range t.Forks {
+			if f.Latest == sg.Kind {
+				levels = append(levels, f.Idx)
+			}
+		}
+		if len(levels) > 0 {
+			lv := levels[r.Intn(len(levels))]
+			return types.LatestSigner(configAt(lv, chain)), "LatestSigner@" + forkNames[lv-1]
 		}
 	}
 	switch sg.Kind {
